@@ -109,6 +109,14 @@ def gen_parameters(rng: random.Random) -> dict:
 
     def history(first="1900-01-01"):
         out = [[first, value()]]
+        if chance(rng, 0.06):
+            # uprated every few months for years: a long history
+            for k in range(rng.randint(16, 30)):
+                y, m = divmod(k * 2, 12)
+                d = f"{2015 + y}-{m + 1:02d}-01"
+                if d > first:
+                    out.append([d, value()])
+            return out
         for y in YEARS:
             if chance(rng, 0.4):
                 m = rng.randint(1, 12)
@@ -578,7 +586,8 @@ def gen_chain_world(rng: random.Random) -> dict:
         elif kind == "whole":
             f = rd("yb", "this_year")
         elif kind == "win":
-            f = rd(c, ["win", pick(rng, [1, 2, 2, 3]), "month"], "ADD")
+            # (now and then a window of more than a year: many entries waiting for the purge)
+            f = rd(c, ["win", pick(rng, [1, 2, 2, 3, 3, 15, 18]), "month"], "ADD")
         elif kind == "plain":
             f = rd(c, pick(rng, ["this", "last_month", ["off", -2, "month"]]))
         else:
